@@ -353,6 +353,42 @@ def connect (b : B) (c : Nat) (f : First) (authOk : Bool) : B × List Out :=
   let (b1, o1) := first b0 c f authOk
   (b1, o0 ++ o1)
 
+/-- `handleConnection` when nothing can be written to the new connection (the peer has gone
+after sending its first packet: `writeMessage(c, resp)` fails): a refusal's CONNACK is lost and the
+connection is closed; for an accepted CONNECT `getSession` has run - the stored session object
+was looked up and updated (`Session.Update`), or a new one was created and filed in the store
+(`sessMgr.New`, `Session.Init`) - and nothing else has: the connection is not started, not
+registered, nothing is resubscribed, and no `stop()` will ever run for it (so a clean session
+object stays in the store, where it is never resumed). -/
+def firstFail (b : B) (c : Nat) (f : First) (authOk : Bool) : B × List Out :=
+  match f with
+  | .garbage => (b, [.closed c])
+  | .other _ => (b, [.closed c])
+  | .connect req =>
+    match connectDecode req with
+    | .inl _ => (b, [.closed c])
+    | .inr false => (b, [.closed c])
+    | .inr true =>
+      if !authOk then (b, [.closed c]) else
+      let (cid, clean) := if req.clientId.isEmpty
+        then ((anonId c), true)
+        else (req.clientId, req.clean)
+      let resumed : Option Sess :=
+        if clean then none else ((b.storeGet cid).bind b.getSess).filter (fun s => !s.clean)
+      let b1 := match resumed with
+        | some s => b.setSess { s with clean := clean, willFlag := req.will.isSome, will := initWill req }
+        | none =>
+          let s : Sess := { ref := b.nextRef, cid := cid, clean := clean, willFlag := req.will.isSome,
+                            will := initWill req, topics := [], pub2in := [] }
+          (({ b with nextRef := b.nextRef + 1 }).setSess s).storeSet cid s.ref
+      (b1, [.closed c])
+
+/-- `handleConnection` with a failing CONNACK write: the take-over happens before `getSession` -/
+def connectFail (b : B) (c : Nat) (f : First) (authOk : Bool) : B × List Out :=
+  let (b0, o0) := takeOver b f authOk
+  let (b1, o1) := firstFail b0 c f authOk
+  (b1, o0 ++ o1)
+
 /-! ### packets on an accepted connection (`processIncoming`) -/
 
 def packet (b : B) (c : Nat) (p : Packet) : B × List Out :=
